@@ -24,7 +24,7 @@ import re
 from harness.core import Check, canon, run_driver, use_repo
 from harness import gen_grammar as G
 from harness import peg
-from harness.txutil import outcome, with_timeout
+from harness.txutil import outcome
 
 BASE_TOKS = ["ID", "BOOL", "INT", "FLOAT", "STRICTFLOAT", "STRING"]
 CFGS = [
@@ -425,6 +425,29 @@ def dump_value(v, container, seen):
     return {"p": type(v).__name__, "v": repr(v)[:80]}
 
 
+class _CpuTimeout(BaseException):
+    pass
+
+
+def cpu_timeout(fn, secs=4):
+    """fn() under a limit on the *CPU time* of this process (ITIMER_VIRTUAL): a loaded machine must not turn a slow
+    case into a 'hang'.  Returns fn() or {"other": "Timeout"}."""
+    import signal
+
+    def h(signum, frame):
+        raise _CpuTimeout()
+
+    old = signal.signal(signal.SIGVTALRM, h)
+    signal.setitimer(signal.ITIMER_VIRTUAL, secs)
+    try:
+        return fn()
+    except _CpuTimeout:
+        return {"other": "Timeout"}
+    finally:
+        signal.setitimer(signal.ITIMER_VIRTUAL, 0)
+        signal.signal(signal.SIGVTALRM, old)
+
+
 def load(mm, text):
     def f():
         return dump_value(mm.model_from_str(text), None, set())
@@ -486,7 +509,7 @@ class Prop(Check):
     DRIVER = "Drivers/Tx.lean"
     QUICK_CASES = 400
     THOROUGH_CASES = 8000
-    CASE_TIMEOUT = 20
+    CASE_TIMEOUT = 300     # wall clock, infrastructure guard only; hangs are detected by CPU time (cpu_timeout)
     RULE = ("generated grammars (1-5 rules; common / abstract / match rules; = += *= ?=; string and regex matches; base types; "
             "? * + # with separators and eolterm; & !; suppression; rule modifiers skipws/noskipws/ws; Comment rule; 60% repaired "
             "into DocFragment, 30% free, 10% with one injected grammar error) x metamodel options (skipws, ws, auto_init_attributes, "
@@ -550,7 +573,7 @@ class Prop(Check):
         except peg.Unsupported as e:
             res["unsupported"] = str(e)
             return res
-        allloads = [with_timeout(lambda t=t: load(mm, t)) for t in case["texts"]]
+        allloads = [cpu_timeout(lambda t=t: load(mm, t)) for t in case["texts"]]
         # input selection: of the candidate texts keep the accepted ones with most objects and some rejected ones
         k = int(case.get("keep", len(case["texts"])))
         acc = sorted((i for i, o in enumerate(allloads) if "ok" in o), key=lambda i: (-str(allloads[i]).count("'cls'"), i))
